@@ -43,7 +43,25 @@ impl World {
         cov.ops += 1;
         cov.hit(&format!("single_shot_seal.{}.{}", if inplace { "inplace" } else { "alloc" }, out_class_s(&a)));
         cov.sig_event("SingleShotSeal", &out_class_s(&a));
-        // B: the composed form, which also registers context c and its one record
+        // B: the composed form. First only its setup, to learn the exact error it gives, if any
+        let b_setup: Result<(), Fail> = {
+            let mut rng_b = ScriptRng::new(script);
+            su.setup_sender(&mode, &pk_r, &cfg.info, &mut rng_b).map(|_| ())
+        };
+        if let Err(fb) = &b_setup {
+            // setup_sender fails: the single-shot form must fail in exactly the same way
+            match &a {
+                Err(fa) if fa == fb => {}
+                other => {
+                    let got = match other {
+                        Ok((e, _)) => format!("Ok(enc={})", hex(e)),
+                        Err(f) => format!("Err({})", short(f)),
+                    };
+                    return Err(self.viol("single-shot.seal.error-equals-composed", format!("Err({}) as setup_sender gives", short(fb)), got));
+                }
+            }
+        }
+        // ... then through the world, which also registers context c and its one record
         self.ev_setup_s(c, cfg, kr, ks, None, script, false, cov)?;
         let have_ctx = self.scs.get(c).and_then(|x| x.as_ref()).map(|s| s.real.is_some()).unwrap_or(false);
         if !cfg.suite.aead.seals() {
@@ -479,6 +497,16 @@ impl World {
             Ev::RawOpen { r, ct, aad, tag } => self.ev_raw_open(*r, ct, aad, tag.as_ref().map(|t| &t.0[..]), cov),
             Ev::On { inner, .. } => self.apply(inner, cov),
             Ev::RejectBurst { r, from, n } => self.ev_reject_burst(*r, *from, *n, cov),
+            Ev::ExportBurst { c, role, n, len } => {
+                let ctx = [7u8, 7, 7];
+                for i in 0..*n {
+                    // same arguments every time: the repeatability cache of ev_export compares them
+                    let mut scratch = Cov::new();
+                    self.ev_export(*c, *role, &ctx, *len, if i == 0 { cov } else { &mut scratch })?;
+                }
+                cov.hit("fault.export_burst");
+                Ok(())
+            }
             Ev::TeardownUnwinding { c, role } => self.ev_teardown_unwinding(*c, *role, cov),
             Ev::StripZerosProbe { r, from } => self.ev_strip_zeros(*r, *from, cov),
             Ev::SingleShotOpenRaw { cfg, kr, ks, enc, ct, aad, tag } => self.ev_single_shot_open_raw(cfg, *kr, *ks, enc, ct, aad, tag.as_ref().map(|t| &t.0[..]), cov),
